@@ -277,6 +277,18 @@ theorem framesData_cons (f : DataFrame) (tl : List DataFrame) (d : Bytes) (h : f
     framesData (f :: tl) = d ++ framesData tl := by
   simp [framesData, h]
 
+theorem mk'_endStream (d : Bytes) (p : Option Nat) (e : Bool) : (DataFrame.mk' d p e).endStream = e := by
+  cases p <;> rfl
+
+theorem framesData_mk' (ds : List (Bytes × Option Nat)) (hp : ∀ x ∈ ds, ∀ n, x.2 = some n → n < 256) :
+    framesData (ds.map fun x => DataFrame.mk' x.1 x.2 false) = (ds.map (·.1)).flatten := by
+  induction ds with
+  | nil => rfl
+  | cons x tl ih =>
+    simp only [List.map_cons, List.flatten_cons]
+    rw [framesData_cons _ _ x.1 (data_mk' x.1 x.2 false (hp x (by simp))),
+      ih (fun y hy => hp y (by simp [hy]))]
+
 theorem h2_fold_open (c : H2Cfg) (fs : List DataFrame)
     (hne : ∀ f ∈ fs, f.endStream = false ∧ f.data.isSome = true) :
     ∀ (st : H2Body), st.state = .open → st.goaway = false →
